@@ -10,6 +10,11 @@ pub fn cycle_check(text: &str, strict: bool, cycles: usize) -> Result<(), (Strin
         Loaded::Panic(p) => return Err(("panic".into(), format!("load panicked: {p}"))),
         Loaded::Err(_) => return Ok(()),
     };
+    cycle_from_model(m0, strict, cycles)
+}
+
+/// the same for a model that is already in memory (loaded and then edited through the API)
+pub fn cycle_from_model(m0: a2lfile::A2lFile, strict: bool, cycles: usize) -> Result<(), (String, String)> {
     let w0 = match catch(|| m0.write_to_string()) {
         Ok(w) => w,
         Err(p) => return Err(("panic".into(), format!("write panicked: {p}"))),
@@ -134,6 +139,54 @@ pub fn run(args: &Args) -> Report {
                 texts.push((p, d % 2 == 1, "prefix"));
             }
         }
+    }
+    // models edited through the API: new elements pushed into a loaded file (1 .. 60 of one kind: new elements have no
+    // position of their own and keep their order only through the writer), and files written with a banner
+    if args.replay.is_none() {
+        let tmp = std::env::temp_dir().join(format!("a2lverif_c01_{}", std::process::id()));
+        let _ = std::fs::create_dir_all(&tmp);
+        let nedit = if args.thorough { 600 } else { 60 };
+        for k in 0..nedit {
+            let toks = gen_document(&g, &mut rng, GenOpts { opt_prob: 20, ..GenOpts::default() });
+            let text = render(&toks, &mut rng, Layout::Canonical, false);
+            let Loaded::Ok(mut file, _) = load(&text, false) else { continue };
+            if file.project.module.is_empty() {
+                continue;
+            }
+            let n = [1usize, 5, 30, 60][k % 4];
+            for j in 0..n {
+                crate::c14::push_new(&mut file, (k / 4 + if k % 3 == 0 { j } else { 0 }) % 7, &format!("vnew_{k}_{j:03}"));
+            }
+            rep.case(&(k, &text), true);
+            rep.bump("layout:edited");
+            if let Err((kind, detail)) = cycle_from_model(file.clone(), false, 3) {
+                rep.fail(&kind, format!("0 {}", hex(text.as_bytes())), format!("after pushing {n} new elements: {detail}"));
+            }
+            if k % 6 == 0 {
+                // write(path, banner) -> load(path) cycles: the file must not drift
+                let path = tmp.join("banner.a2l");
+                let mut cur = file;
+                let mut sizes = vec![];
+                for _ in 0..4 {
+                    if cur.write(&path, Some("written by the C01 check")).is_err() {
+                        break;
+                    }
+                    sizes.push(std::fs::metadata(&path).map(|m| m.len()).unwrap_or(0));
+                    match a2lfile::load(&path, None, false) {
+                        Ok((f, _)) => cur = f,
+                        Err(e) => {
+                            rep.fail("reload", format!("0 {}", hex(text.as_bytes())), format!("file written with a banner does not load: {e}"));
+                            break;
+                        }
+                    }
+                }
+                rep.bump("layout:banner");
+                if sizes.len() >= 3 && sizes[1..].windows(2).any(|w| w[0] != w[1]) {
+                    rep.fail("fixpoint", format!("0 {}", hex(text.as_bytes())), format!("file written with a banner drifts over load -> write cycles: sizes {sizes:?}"));
+                }
+            }
+        }
+        let _ = std::fs::remove_dir_all(&tmp);
     }
     for (i, (text, strict, family)) in texts.iter().enumerate() {
         let accepted = matches!(load(text, *strict), Loaded::Ok(..));
